@@ -451,6 +451,107 @@ def c11_10(ctx):
     return memo_obligation(ctx, ["psbt", "psbt_helper"], "a derivation checked for one xpub would vouch for another")
 
 
+def _membership_sites(fn, script_attr):
+    """-> (good, wrong, other): statements of fn that relate the named pubkeys to `self.<script_attr>.commands`
+    good : per-key checks (`for sec in named_pubs: commands.index(sec)` under try/except-raise, `if sec not in commands: raise`,
+           `set(named) <= set(commands)`, `.issubset`, `all(...)`) -- every key must be present
+    wrong: existential forms (`isdisjoint`, `any(...)`, non-empty intersection, a loop that stops at the first hit)"""
+    good, wrong, other = [], [], []
+    tgt = "self.%s.commands" % script_attr
+
+    def mentions(node, text):
+        return any(ast.unparse(x) == text for x in ast.walk(node) if isinstance(x, ast.Attribute))
+
+    def keyish(node, names):
+        return any((isinstance(x, ast.Attribute) and x.attr == "named_pubs") or (isinstance(x, ast.Name) and x.id in names) for x in ast.walk(node))
+    # locals that hold (a view of) the script's commands or of the named pubkeys
+    cmd_names, key_names = set(), set()
+    for _ in range(2):
+        for st in ast.walk(fn):
+            if isinstance(st, ast.Assign) and len(st.targets) == 1 and isinstance(st.targets[0], ast.Name):
+                if mentions(st.value, tgt) or any(isinstance(x, ast.Name) and x.id in cmd_names for x in ast.walk(st.value)):
+                    cmd_names.add(st.targets[0].id)
+                if keyish(st.value, key_names) and not mentions(st.value, tgt):
+                    key_names.add(st.targets[0].id)
+            elif isinstance(st, ast.For) and isinstance(st.target, ast.Name):
+                if mentions(st.iter, tgt) or any(isinstance(x, ast.Name) and x.id in cmd_names for x in ast.walk(st.iter)):
+                    # elements collected from the commands (`for c in commands: if ...: secs.add(c)`)
+                    for x in ast.walk(st):
+                        if isinstance(x, ast.Call) and isinstance(x.func, ast.Attribute) and x.func.attr in ("add", "append") and isinstance(x.func.value, ast.Name):
+                            cmd_names.add(x.func.value.id)
+
+    def is_cmd(e):
+        return mentions(e, tgt) or any(isinstance(x, ast.Name) and x.id in cmd_names for x in ast.walk(e))
+    for st in ast.walk(fn):
+        if isinstance(st, ast.For) and keyish(st.iter, key_names) and not is_cmd(st.iter):
+            var = {x.id for x in ast.walk(st.target) if isinstance(x, ast.Name)}
+            hit = None
+            for x in ast.walk(st):
+                if isinstance(x, ast.Call) and isinstance(x.func, ast.Attribute) and x.func.attr == "index" and is_cmd(x.func.value) and x.args \
+                        and isinstance(x.args[0], ast.Name) and x.args[0].id in var:
+                    hit = x
+                elif isinstance(x, ast.Compare) and len(x.ops) == 1 and isinstance(x.ops[0], (ast.In, ast.NotIn)) and isinstance(x.left, ast.Name) and x.left.id in var \
+                        and is_cmd(x.comparators[0]):
+                    hit = x
+            if hit is None:
+                continue
+            early = [x for x in ast.walk(st) if isinstance(x, (ast.Break, ast.Return))]
+            raises = [x for x in ast.walk(st) if isinstance(x, ast.Raise)]
+            if early:
+                wrong.append((st, "the loop over the named pubkeys stops at the first key (line %d)" % early[0].lineno))
+            elif raises:
+                good.append(st)
+            else:
+                other.append(st)
+        elif isinstance(st, ast.If):
+            t = st.test
+            for x in ast.walk(t):
+                if isinstance(x, ast.Call) and isinstance(x.func, ast.Attribute) and x.func.attr in ("isdisjoint", "intersection") and \
+                        ((is_cmd(x.func.value) and x.args and keyish(x.args[0], key_names)) or (keyish(x.func.value, key_names) and x.args and is_cmd(x.args[0]))):
+                    wrong.append((st, "`%s` only asks whether *some* named pubkey is in the script" % ast.unparse(x)))
+                elif isinstance(x, ast.Call) and isinstance(x.func, ast.Name) and x.func.id == "any" and is_cmd(x) and keyish(x, key_names):
+                    wrong.append((st, "`%s` only asks whether *some* named pubkey is in the script" % ast.unparse(x)[:80]))
+                elif isinstance(x, ast.BinOp) and isinstance(x.op, ast.BitAnd) and is_cmd(x) and keyish(x, key_names):
+                    wrong.append((st, "`%s` (non-empty intersection) only asks whether *some* named pubkey is in the script" % ast.unparse(x)[:80]))
+                elif isinstance(x, ast.Call) and isinstance(x.func, ast.Attribute) and x.func.attr in ("issubset", "issuperset") and is_cmd(x) and keyish(x, key_names):
+                    sub_is_keys = keyish(x.func.value, key_names) if x.func.attr == "issubset" else (x.args and keyish(x.args[0], key_names))
+                    (good if sub_is_keys and any(isinstance(r, ast.Raise) for r in ast.walk(st)) else other).append(st)
+                elif isinstance(x, ast.Compare) and len(x.ops) == 1 and isinstance(x.ops[0], (ast.LtE, ast.GtE, ast.Lt, ast.Gt)) and is_cmd(x) and keyish(x, key_names) \
+                        and all(isinstance(o, ast.Call) and isinstance(o.func, ast.Name) and o.func.id in ("set", "frozenset") or isinstance(o, ast.Name) for o in (x.left, x.comparators[0])):
+                    small, big = (x.left, x.comparators[0]) if isinstance(x.ops[0], (ast.LtE, ast.Lt)) else (x.comparators[0], x.left)
+                    if keyish(small, key_names) and is_cmd(big) and any(isinstance(r, ast.Raise) for r in ast.walk(st)):
+                        good.append(st)
+                    else:
+                        other.append(st)
+                elif isinstance(x, ast.Call) and isinstance(x.func, ast.Name) and x.func.id == "all" and is_cmd(x) and keyish(x, key_names):
+                    (good if any(isinstance(r, ast.Raise) for r in ast.walk(st)) else other).append(st)
+    return good, wrong, other
+
+
+def c11_11(ctx):
+    """every named (BIP32-derived) pubkey of an input / output must be one of the keys in the attached redeem / witness script:
+    the check quantifies over *all* named keys -- one matching key among foreign ones is not enough"""
+    out = []
+    for spec in ("psbt:PSBTIn.validate", "psbt:PSBTOut.validate"):
+        mod, fn = rl.get(ctx, spec)
+        for attr in ("witness_script", "redeem_script"):
+            good, wrong, other = _membership_sites(fn, attr)
+            ctx.count("call_sites", len(good) + len(wrong) + len(other))
+            key = "all-keys-in:%s" % attr
+            if wrong:
+                st, why = wrong[0]
+                out.append(ctx.bad(spec, "named pubkeys vs %s: %s; an output whose script holds one wallet key next to foreign keys passes as the wallet's own" % (attr, why),
+                                   st, mod, key=key))
+            elif good:
+                out.append(ctx.ok(spec, "every named pubkey is required to occur in self.%s.commands (%d check(s), failing raises)" % (attr, len(good)), good[0], mod, key=key))
+            elif other:
+                out.append(ctx.err(spec, "relation between the named pubkeys and self.%s.commands not recognised: `%s`" % (attr, ast.unparse(other[0])[:90]), other[0], mod))
+            else:
+                out.append(ctx.bad(spec, "no statement relates the named pubkeys to self.%s.commands: a derivation for a key that is not in the attached script is accepted" % attr,
+                                   fn, mod, key=key))
+    return out
+
+
 OBLIGATIONS = [
     ("C11.10", "MEMO", c11_10),
     ("C11.9", "GUARD relation", c11_9),
@@ -462,5 +563,6 @@ OBLIGATIONS = [
     ("C11.6", "DATAFLOW", c11_6),
     ("C11.7", "GUARD", c11_7),
     ("C11.8", "GUARD", c11_8),
+    ("C11.11", "FORALL membership", c11_11),
 ]
 FLOORS = {"C11.1": 4, "C11.2": 5, "C11.5": 2, "C11.6": 4, "C11.7": 2, "C11.8": 5}
